@@ -339,7 +339,7 @@ fn c17_diff<'a, T: DiffableStr + ?Sized>(
     let mut n = 0;
     let mut off_old = 0usize; // byte offset of the next old token
     let mut off_new = 0usize;
-    for op in diff.ops() {
+    for (op_no, op) in diff.ops().iter().enumerate() {
         let plain: Vec<(ChangeTag, &[&T])> = op
             .iter_slices(diff.old_slices(), diff.new_slices())
             .collect();
@@ -351,6 +351,19 @@ fn c17_diff<'a, T: DiffableStr + ?Sized>(
                 mapped.len(),
                 plain.len()
             ));
+        }
+        // (independent of the surrounding diff: the first two ops and the last one of each diff)
+        if op_no < 2 || op_no + 1 == diff.ops().len() {
+            consumption_modes(
+                &|| format!("{:?}: TextDiffRemapper::iter_slices", op),
+                || remapper.iter_slices(op),
+                |(t, s)| (t, s.as_bytes().as_ptr() as usize, s.as_bytes().len()),
+            )?;
+            consumption_modes(
+                &|| format!("{:?}: DiffOp::iter_slices", op),
+                || op.iter_slices(diff.old_slices(), diff.new_slices()),
+                |(t, s)| (t, s.as_ptr() as usize, s.len()),
+            )?;
         }
         for ((ptag, toks), (mtag, s)) in plain.iter().zip(mapped.iter()) {
             n += 1;
